@@ -150,22 +150,41 @@ type zzMPool struct {
 	scripted bool // false: every attempt fails to connect
 	host     types.Host
 	senders  []*zzUpSender
+	onUpHeaders func() // handed to every upstream sender the pool creates
 }
 
 // zzUpSender records what the proxy sends upstream.
 type zzUpSender struct {
 	types.StreamSender
-	st      *zzMStream
-	headers int
+	st        *zzMStream
+	headers   int
+	ended     bool   // the whole request was handed over (end of stream seen)
+	onHeaders func() // environment hook: something happens while the request headers are being written upstream
 }
 
 func (s *zzUpSender) GetStream() types.Stream { return s.st }
 func (s *zzUpSender) AppendHeaders(ctx context.Context, h api.HeaderMap, end bool) error {
 	s.headers++
+	if end {
+		s.ended = true
+	}
+	if s.onHeaders != nil {
+		f := s.onHeaders
+		s.onHeaders = nil
+		f()
+	}
 	return nil
 }
-func (s *zzUpSender) AppendData(ctx context.Context, b buffer.IoBuffer, end bool) error { return nil }
-func (s *zzUpSender) AppendTrailers(context.Context, api.HeaderMap) error             { return nil }
+func (s *zzUpSender) AppendData(ctx context.Context, b buffer.IoBuffer, end bool) error {
+	if end {
+		s.ended = true
+	}
+	return nil
+}
+func (s *zzUpSender) AppendTrailers(context.Context, api.HeaderMap) error {
+	s.ended = true
+	return nil
+}
 
 func (p *zzMPool) NewStream(context.Context, types.StreamReceiveListener) (types.Host, types.StreamSender, types.PoolFailureReason) {
 	p.calls++
@@ -178,7 +197,7 @@ func (p *zzMPool) NewStream(context.Context, types.StreamReceiveListener) (types
 	case 2:
 		return p.host, nil, types.Overflow
 	}
-	up := &zzUpSender{st: &zzMStream{}}
+	up := &zzUpSender{st: &zzMStream{}, onHeaders: p.onUpHeaders}
 	p.senders = append(p.senders, up)
 	return p.host, up, ""
 }
@@ -199,7 +218,15 @@ func (c *zzMCM) ConnPoolForCluster(types.LoadBalancerContext, types.ClusterSnaps
 	return c.pool, c.host
 }
 
-type zzMStream struct{ stream.BaseStream }
+type zzMStream struct {
+	stream.BaseStream
+	resets int
+}
+
+func (s *zzMStream) ResetStream(r types.StreamResetReason) {
+	s.resets++
+	s.BaseStream.ResetStream(r)
+}
 
 func (s *zzMStream) ID() uint64 { return 1 }
 
@@ -966,6 +993,69 @@ func VerifC03_RefusedTerminate() {
 	}
 	if done {
 		verif.Assert(p.stats.DownstreamRequestActive.Count() == active0-1, "the request ended but DownstreamRequestActive was not released exactly once")
+	}
+	verif.Cover("end")
+}
+
+// VerifC10_UpstreamStreamReleased: a pool counts a request from NewStream until the
+// stream it handed out is destroyed (response end or reset). A request with headers,
+// optionally a body and trailers, whose client disconnects at any of these moments -
+// while the request headers are being written upstream (between the header and the body
+// phase), after the whole request was sent, or not at all - must leave no upstream stream
+// behind that was neither answered nor reset: otherwise the pool's request slot and the
+// upstream request_active gauges stay taken for ever.
+func VerifC10_UpstreamStreamReleased() {
+	verif.Switches(0)
+	ds, sender, pool, p, ctx := zzMachine(0, false)
+	pool.scripted = true
+	active0 := p.stats.DownstreamRequestActive.Count()
+	var body buffer.IoBuffer
+	var trailers api.HeaderMap
+	shape := verif.Choose("request_shape", 3)
+	if shape >= 1 {
+		body = buffer.NewIoBufferBytes([]byte("b"))
+	}
+	if shape == 2 {
+		trailers = protocol.CommonHeader{"t": "v"}
+	}
+	when := verif.Choose("client_disconnects", 3) // 0 never, 1 while the upstream headers are written, 2 after the request was sent
+	if when == 1 {
+		pool.onUpHeaders = func() {
+			sender.st.ResetStream(types.StreamRemoteReset)
+			verif.Cover("disconnect between header and body phase")
+		}
+	}
+	done := false
+	go func() {
+		ds.OnReceive(ctx, protocol.CommonHeader{}, body, trailers)
+		done = true
+	}()
+	verif.Settle()
+	answered := map[*zzUpSender]bool{}
+	if !done {
+		if when == 2 {
+			sender.st.ResetStream(types.StreamRemoteReset)
+		} else if ur := ds.upstreamRequest; ur != nil && ur.requestSender != nil {
+			if up, ok := ur.requestSender.(*zzUpSender); ok {
+				answered[up] = true
+			}
+			ur.OnReceive(ctx, protocol.CommonHeader{"status": "200"}, nil, nil)
+		}
+		verif.Settle()
+	}
+	for k := 0; k < 4 && !done && verif.Symbolic() && verif.NumTimers() > 0; k++ {
+		verif.FireTimer(0)
+		verif.Settle()
+	}
+	verif.Assert(done, "the request did not end")
+	if done {
+		verif.Assert(p.stats.DownstreamRequestActive.Count() == active0-1, "DownstreamRequestActive not released exactly once")
+		for _, up := range pool.senders {
+			verif.Assert(answered[up] || up.st.resets > 0, "an upstream stream the pool handed out was neither answered nor reset when the request ended: the pool's request slot and gauges leak")
+		}
+	}
+	if len(pool.senders) > 0 {
+		verif.Cover("upstream stream created")
 	}
 	verif.Cover("end")
 }
